@@ -17,7 +17,7 @@ t0=time.time()
 solve.discharge(allobl)
 can=[o for o in allobl if o.kind=='CANARY']
 print('canaries',len(can),'unsat (BAD):',[o.name for o in can if o.result=='unsat'])
-bad=[o for o in allobl if o.result!='unsat' and o.kind!='CANARY']
+bad=[o for o in allobl if o.result!='unsat' and o.kind not in ('CANARY','PROBE')]
 for o in bad: print("NOT ACCEPTED", o.result, o.time, o.name)
 print("total", len(allobl), "bad", len(bad), "solve %.1fs"%(time.time()-t0), "max", max(o.time for o in allobl))
 
